@@ -105,6 +105,8 @@ inductive Out where
   | orphan (a i : Nat)                     -- reply / callback without an outstanding request: acknowledged only
   | unknown (a : Nat)                      -- addressed to an attempt there is no record of (outside the model)
   | refused                                -- launch with a used id / top-level step of an ended execution
+  | joinFailed (a : Nat) (e : Err)         -- the join of attempt a completed but its state then failed with e (ResultSelector,
+                                           -- ResultPath, the size limit, a refused transition): then its Retry / Catch
   deriving Repr, DecidableEq
 
 /-- what the accepted handler of a branch event / reply goes on to do -/
@@ -116,6 +118,8 @@ inductive Kont where
                                            -- innermost first, is that fan-out state the last of *its* branch / the machine?
   | fail (e : Err) (hs : List Handled)     -- unhandled inside the branch; `hs`: what the Retry / Catch of each
                                            -- enclosing fan-out state decides, innermost first (none listed = no handler)
+  | doneFail (v : Nat) (e : Err) (hs : List Handled)   -- terminal state with output v; if that completes the join of its
+                                           -- attempt the fan-out state then fails with e (`hs` as for `fail`)
   deriving Repr, DecidableEq
 
 inductive Inp where
@@ -276,6 +280,7 @@ def lookup (q : Quirks) (s : Proto) (a i : Nat) : Verdict Ã— Proto Ã— List Out :
 inductive Res where
   | done (v : Nat) (ups : List Bool)
   | fail (e : Err) (hs : List Handled)
+  | doneFail (v : Nat) (e : Err) (hs : List Handled)
   deriving Repr, DecidableEq
 
 /-- what the fan-out state's own Retry / Catch decides (`handle_error`) -/
@@ -337,6 +342,20 @@ def bubble (q : Quirks) (ended : Bool) : List Attempt â†’ Nat â†’ Nat â†’ Res â†
                | none =>
                  if e == .taskTerminated then { atts := x2 :: rest, outs := [o], cpr := true }
                  else { atts := x2 :: rest, outs := [o, .endExecution false], endNow := some false })
+        | .doneFail v e hs =>
+          let x1 := { x with seen := true, slots := x.slots.modify i (fun _ => .done v) }
+          if x.terminated then { atts := x1 :: rest, cpr := true }
+          else if x1.slots.any Slot.isOpen then { atts := x1 :: rest }
+          else
+            let x2 := { x1 with joined := true }
+            let o := Out.joinFailed a e
+            match effective e hs with
+            | .retried => { atts := x2 :: rest, outs := [o, .retry a (x.retry + 1)], cpr := true }
+            | .caught => { atts := x2 :: markCaught rest x.parent, outs := [o, .caughtTo a], cpr := true }
+            | .uncaught =>
+              (match x.parent with
+               | some (p, pi) => (bubble q ended rest p pi (.fail e hs.tail)).under x2 [o]
+               | none => { atts := x2 :: rest, outs := [o, .endExecution false], endNow := some false })
     else (bubble q ended rest a i r).under x []
 
 /-- `end_execution` (when called for) and `check_pending_results` after a walk (`collect_results` has created the
@@ -359,6 +378,9 @@ def continue_ (q : Quirks) (s : Proto) (a i : Nat) (k : Kont) : Proto Ã— List Ou
     (r.1, .progress a i :: r.2)
   | .fail e hs =>
     let r := finish q s (bubble q s.ended.isSome s.atts a i (.fail e hs))
+    (r.1, .progress a i :: r.2)
+  | .doneFail v e hs =>
+    let r := finish q s (bubble q s.ended.isSome s.atts a i (.doneFail v e hs))
     (r.1, .progress a i :: r.2)
 
 def viaLookup (q : Quirks) (s : Proto) (a i : Nat) (k : Kont) : Proto Ã— List Out :=
